@@ -46,6 +46,32 @@ def handle (op : String) (args : List String) : Option String :=
     | _ =>
       pure (showOutcome out ++ "\t" ++ showValue s.event ++ "\t" ++ showValue s.metadata ++ "\t" ++
         showVars s.vars ++ "\tlog " ++ " | ".intercalate (s.log.reverse.map showAccess))
+  | _, [_src, event, metadata, faults, "|", prog, errs, o1, o2, o3, o4] =>
+    -- Spec oracle: when the run exercises the construct the property is about (a `return`, an
+    -- `abort`, a closure call, `??`/`ok, err =`, `||`/`&&`/`if`), the implementation's observed
+    -- outcome / event / metadata / variables must be what the semantics proved to satisfy the
+    -- property yields.
+    if !(op.startsWith "o.c") then none else do
+    let prog ← Parse.program prog
+    let event ← valueOfString event
+    let metadata ← valueOfString metadata
+    let faults ← natList faults
+    let errs ← hexList errs
+    let s0 : St := { vars := [], event, metadata, faults, ops := 0, log := [], errs }
+    let (out, s) := run prog s0
+    match out with
+    | .oom => pure "oom"
+    | _ =>
+      let relevant : Bool :=
+        (op == "o.c06" && s.evRet) || (op == "o.c07" && s.evAbort) || (op == "o.c13" && s.evClosure) ||
+        (op == "o.c08" && s.evCatch) || (op == "o.c09" && s.evShort) ||
+        (op == "o.c17" && !faults.isEmpty)
+      if !relevant then pure "holds"
+      else
+        let specLine := showOutcome out ++ "\t" ++ showValue s.event ++ "\t" ++ showValue s.metadata ++ "\t" ++
+          showVars s.vars
+        let obsLine := o1 ++ "\t" ++ o2 ++ "\t" ++ o3 ++ "\t" ++ o4
+        if specLine == obsLine then pure "holds" else pure "fails semantics:-"
   | _, _ => none
 
 end Driver.LangRun
